@@ -97,7 +97,57 @@ fn split_cases(text: &str) -> Vec<Vec<String>> {
     cases
 }
 
+/// The case in progress, for post-mortems: its number (for the hang watchdog) and, when
+/// `WSH_PENDING` names a file, its input lines (so that a process that dies inside the crate —
+/// allocation failure, stack overflow, endless loop — leaves the input it died on behind).
+pub mod pending {
+    use std::io::Write;
+    use std::sync::atomic::{AtomicU64, Ordering};
+    pub static CASE_NO: AtomicU64 = AtomicU64::new(0);
+    fn path() -> Option<String> {
+        std::env::var("WSH_PENDING").ok()
+    }
+    pub fn begin(lines: &[String]) {
+        CASE_NO.fetch_add(1, Ordering::Relaxed);
+        if let Some(p) = path() {
+            if let Ok(mut f) = std::fs::File::create(&p) {
+                let _ = f.write_all(lines.join("\n").as_bytes());
+                let _ = f.write_all(b"\n");
+            }
+        }
+    }
+    /// adaptive families learn their input as they go
+    pub fn append(line: &str) {
+        CASE_NO.fetch_add(1, Ordering::Relaxed);
+        if let Some(p) = path() {
+            if let Ok(mut f) = std::fs::OpenOptions::new().append(true).create(true).open(&p) {
+                let _ = writeln!(f, "{line}");
+            }
+        }
+    }
+    /// a case (or one operation of an adaptive case) that runs longer than this is a hang
+    pub fn start_watchdog() {
+        let secs: u64 = std::env::var("WSH_HANG_SECS").ok().and_then(|s| s.parse().ok()).unwrap_or(60);
+        std::thread::spawn(move || {
+            let mut last = CASE_NO.load(Ordering::Relaxed);
+            let mut since = std::time::Instant::now();
+            loop {
+                std::thread::sleep(std::time::Duration::from_millis(500));
+                let now = CASE_NO.load(Ordering::Relaxed);
+                if now != last {
+                    last = now;
+                    since = std::time::Instant::now();
+                } else if now > 0 && since.elapsed().as_secs() >= secs {
+                    eprintln!("WATCHDOG: no progress for {secs} s inside one case: the crate hangs on this input");
+                    std::process::exit(97);
+                }
+            }
+        });
+    }
+}
+
 fn run_block(lines: &[String], out: &mut String) {
+    pending::begin(lines);
     let fam = lines
         .first()
         .and_then(|l| l.split_whitespace().nth(1))
@@ -123,6 +173,7 @@ fn main() {
         std::panic::set_hook(Box::new(|_| {}));
     }
     let args: Vec<String> = std::env::args().collect();
+    pending::start_watchdog();
     let stdout = std::io::stdout();
     let mut so = std::io::BufWriter::new(stdout.lock());
     match args.get(1).map(|s| s.as_str()) {
@@ -155,13 +206,19 @@ fn main() {
                     run_block(&c, &mut out);
                     so.write_all(out.as_bytes()).unwrap();
                 }
+            } else if fam == "ep:utf8cuts" {
+                for c in gen::gen_utf8cuts(&mut rng) {
+                    let mut out = String::new();
+                    run_block(&c, &mut out);
+                    so.write_all(out.as_bytes()).unwrap();
+                }
             } else if fam == "ep:maskpaths" {
                 for c in gen::gen_maskpaths(&mut rng) {
                     let mut out = String::new();
                     run_block(&c, &mut out);
                     so.write_all(out.as_bytes()).unwrap();
                 }
-            } else if let (Some(prof), false) = (fam.strip_prefix("ep:"), fam == "ep:pipe" || fam == "ep:exhaustive" || fam == "ep:maskpaths" || fam == "ep:slotrace") {
+            } else if let (Some(prof), false) = (fam.strip_prefix("ep:"), fam == "ep:pipe" || fam == "ep:exhaustive" || fam == "ep:maskpaths" || fam == "ep:slotrace" || fam == "ep:utf8cuts") {
                 let prof = gen::profile_of(prof);
                 for i in 0..count {
                     let mut r = rng.fork();
